@@ -337,7 +337,7 @@ def long_stream(rng, lw, lh, oob=False, maxlen=400):
     return px[:maxlen]
 
 
-def f_long_streams(ids, rng, n, ifaces=("rec",), tag="long", maxlen=400, shapes=None):
+def f_long_streams(ids, rng, n, ifaces=("rec",), tag="long", maxlen=400, shapes=None, oob=False):
     out = []
     shapes = shapes or [("tiny565_300x3", 300, 3), ("tiny565_40x36", 40, 36), ("tiny565_2000x1", 2000, 1),
                         ("st7789", 240, 320), ("tiny565_7x5", 7, 5)]
@@ -357,7 +357,7 @@ def f_long_streams(ids, rng, n, ifaces=("rec",), tag="long", maxlen=400, shapes=
         c = cfg(model, w, h, ox, oy, rot, mir, iface=iface, buf=rng.choice([2, 3, 64, 100, 101, 512]))
         calls = [INIT]
         for _ in range(rng.randrange(1, 4)):
-            calls.append({"name": "draw_iter", "px": long_stream(rng, lw, lh, maxlen=rng.choice([20, 120, maxlen]))})
+            calls.append({"name": "draw_iter", "px": long_stream(rng, lw, lh, oob=oob, maxlen=rng.choice([20, 120, maxlen]))})
         out.append(scn(ids, c, calls, tag=tag))
     return out
 
@@ -400,7 +400,7 @@ def f_reorient(ids, rng, models, ifaces=("rec",), seq_len=3, per_cfg=1, tag="reo
     return out
 
 
-def f_contig_tiny(ids, rng, sample=1.0, ifaces=("rec",), sizes=((2, 3), (3, 2), (4, 3), (1, 1), (3, 3))):
+def f_contig_tiny(ids, rng, sample=1.0, ifaces=("rec",), sizes=((2, 3), (3, 2), (4, 3), (1, 1), (3, 3)), reorient=0.3):
     """every rectangle with corner in -2..lw+1 and size 0..lw+2 on small displays, stream lengths around the area"""
     out = []
     for (W, H) in sizes:
@@ -415,6 +415,11 @@ def f_contig_tiny(ids, rng, sample=1.0, ifaces=("rec",), sizes=((2, 3), (3, 2), 
                 iface = rng.choice(ifaces)
                 c = cfg(model, w, h, ox, oy, rot, mir, iface=iface, buf=rng.choice([2, 3, 64]))
                 calls = [INIT, {"name": "clear", "c": 3}]
+                if rng.random() < reorient:
+                    # the same fills after a runtime orientation change that keeps the logical size
+                    cand = [(r2, m2) for (r2, m2) in ORIENTS if lsize(w, h, r2) == (lw, lh) and (r2, m2) != (rot, mir)]
+                    r2, m2 = rng.choice(cand)
+                    calls.append({"name": "set_orientation", "rot": r2, "mir": m2})
                 col = 50
                 for r in rects[:14]:
                     area = r[2] * r[3]
@@ -678,7 +683,7 @@ def f_lifecycle(ids, rng, n_per_model=3, length=12, models=None, ifaces=None, fa
             calls = [INIT]
             faults = []
             for _ in range(rng.randrange(2, length + 1)):
-                k = rng.choice(["sleep", "sleep", "wake", "wake", "draw", "orient", "scroll", "tear", "clear"])
+                k = rng.choice(["sleep", "sleep", "wake", "wake", "draw", "orient", "scroll", "tear", "clear", "raw"])
                 if k in ("sleep", "wake"):
                     calls.append({"name": k})
                     if rng.random() < fault_rate:
@@ -694,6 +699,10 @@ def f_lifecycle(ids, rng, n_per_model=3, length=12, models=None, ifaces=None, fa
                     calls.append({"name": "scroll_offset", "v": rng.randrange(65536)})
                 elif k == "tear":
                     calls.append({"name": "tearing", "mode": rng.choice(["off", "v", "hv"])})
+                elif k == "raw":
+                    # vendor commands through the raw DCS access (never one the controller model decodes)
+                    calls.append({"name": "raw", "op": rng.choice([0x51, 0x53, 0xB1, 0xC5, 0xE0]),
+                                  "params": [rng.randrange(256) for _ in range(rng.randrange(0, 5))]})
                 else:
                     calls.append({"name": "clear", "c": rng.randrange(65536)})
             sc_ = scn(ids, c, calls, tag="lifecycle")
@@ -1035,4 +1044,34 @@ def f_small_alphabet(ids, rng, n, ifaces=("spi",), sizes=((2, 2), (3, 2), (2, 3)
                     calls.append({"name": "set_orientation", "rot": r2, "mir": m2})
                     rot, mir = r2, m2
         out.append(scn(ids, c, calls, tag=tag))
+    return out
+
+
+def f_xport_faults(ids, rng, ifaces=("p8", "p16"), n=200):
+    """interface-level calls on a real transport with one failing low-level operation somewhere inside:
+    what reached the bus before it must be a prefix of what was to be sent, and nothing may follow"""
+    out = []
+    for _ in range(n):
+        iface = rng.choice(ifaces)
+        wbits = 16 if iface == "p16" else 8
+        nn = rng.choice([1, 2, 3])
+        alpha = walking(wbits)
+        calls = [RAMWR]
+        kind = rng.random()
+        if kind < 0.5:
+            px = [[rng.choice(alpha) for _ in range(nn)] for _ in range(rng.randrange(1, 5))]
+            calls.append({"name": "xport.send_pixels", "n": nn, "px": px})
+        elif kind < 0.8:
+            v = rng.choice(alpha)
+            pixel = [v] * nn if rng.random() < 0.5 else [rng.choice(alpha) for _ in range(nn)]
+            calls.append({"name": "xport.send_repeated_pixel", "n": nn, "pixel": pixel, "count": split16(rng.randrange(1, 5))})
+        else:
+            calls.append({"name": "xport.send_command", "op": rng.choice([0x2A, 0x36, 0x2C]), "params": [rng.choice(walking(8)) for _ in range(rng.randrange(0, 4))]})
+        # a follow-up call after the failure: the transport must still work
+        calls.append(RAMWR)
+        calls.append({"name": "xport.send_pixels", "n": 1, "px": [[rng.choice(alpha)], [rng.choice(alpha)]]})
+        # (the staging buffer must hold at least one pixel: a documented precondition of SpiInterface)
+        s = scn(ids, xcfg(iface, buf=rng.choice([3, 4, 6, 7, 64])), calls, tag="xport-fault")
+        s["faults"] = [{"call": 2, "k": rng.randrange(1, 40), "effect": False}]
+        out.append(s)
     return out
